@@ -144,6 +144,24 @@ class C01(Prop):
                 res.append(("emit_param_" + style, {"op": "emit_param_str", "name": n, "param": pj, "style": style, "emit": c["emit_dd"]}, impl))
         for style in ("numpydoc", "google"):
             res.append(("emit_" + style, {"op": "emit_docstring", "style": style, "ir": c["ir"], "emit": c["emit_dd"]}, self.py_emit(ir, style, c["emit_dd"])))
+        # the numpydoc / google scanner on emitted (and, for 45% of the cases, mutated) text
+        from doctrans.docstring_parsers import Style, _scan_phase
+        from doctrans.docstring_utils import ARG_TOKENS, RETURN_TOKENS
+
+        for style in ("numpydoc", "google"):
+            pe2 = self.py_emit(ir, style, c["emit_dd"])
+            if "ok" not in pe2:
+                continue
+            t = pe2["ok"]
+            if c["mut_seed"] is not None:
+                t = mutate_sections(random.Random(c["mut_seed"]), t)
+            try:
+                sc = _scan_phase(t, style=getattr(Style, style))
+                at, rt = getattr(ARG_TOKENS, style)[0], getattr(RETURN_TOKENS, style)[0]
+                impl = {"ok": {"doc": sc["doc"], "args": sc.get(at, []), "rets": sc.get(rt, []), "afterward": sc.get("scanned_afterward")}}
+            except Exception as e:
+                impl = {"raises": exc_kind(e)}
+            res.append(("scan_" + style, {"op": "scan_doc", "style": style, "text": t}, impl))
         pe = self.py_emit(ir, "rest", c["emit_dd"])
         res.append(("emit_rest", {"op": "emit_rest", "ir": c["ir"], "emit": c["emit_dd"]}, pe))
         if "ok" in pe:
@@ -218,6 +236,27 @@ class C01(Prop):
         if fl.get("diffs") is None:
             return ex[0][0]
         return covered_by(ex, fl["diffs"])
+
+
+def mutate_sections(r, t):
+    """numpydoc / google text with one structural change: a trailing section, a blank line removed or added, a line
+    dedented or indented, the Returns header moved, the text cut"""
+    lines = t.split("\n")
+    k = r.random()
+    if k < 0.2:
+        return t + r.choice(["Raises:\n  ValueError: when bad\n", "Raises\n------\nValueError\n    when bad\n", "Example:\n  >>> f()\n", "Notes\n-----\nfree text\n"])
+    if k < 0.4 and len(lines) > 3:
+        i = r.randrange(1, len(lines))
+        return "\n".join(lines[:i] + lines[i + 1 :])
+    if k < 0.55 and len(lines) > 3:
+        i = r.randrange(1, len(lines))
+        return "\n".join(lines[:i] + [""] + lines[i:])
+    if k < 0.7 and len(lines) > 3:
+        i = r.randrange(1, len(lines))
+        return "\n".join(lines[:i] + [r.choice(["  ", "    ", ""]) + lines[i].lstrip()] + lines[i + 1 :])
+    if k < 0.85:
+        return t[: r.randrange(len(t) + 1)]
+    return t.replace("Returns", r.choice(["Returns", "returns", "Return", "Yields"]), 1)
 
 
 def _mentions_str(typ):
